@@ -27,7 +27,7 @@ def csv(l):
 
 
 # ---------------------------------------------------------------- negotiation models vs code
-def negotiation_corr(ctx, r, n):
+def negotiation_corr(ctx, r, n, use_driver=True):
     from aioquic import tls
     from aioquic.quic.connection import is_version_compatible
     ops, impl = [], []
@@ -36,12 +36,20 @@ def negotiation_corr(ctx, r, n):
         sup = [r.choice(pool) for _ in range(r.randrange(0, 5))]
         off = None if r.random() < 0.15 else [r.choice(pool) for _ in range(r.randrange(0, 5))]
         got = tls.negotiate(sup, off)
+        raised = False
         try:
             got2 = tls.negotiate(sup, off, tls.AlertHandshakeFailure("x"))
         except tls.AlertHandshakeFailure:
-            got2 = None
+            got2, raised = None, True
         if got != got2:
             ctx.witness("negotiate() with and without exc disagree", {"supported": sup, "offered": off}, {"oracle": "negotiate"})
+        # "no common option" must be an error whenever the caller supplies one — also when the peer
+        # did not send the list at all (offered is None)
+        if raised != (got is None):
+            ctx.witness(f"negotiate({sup}, {off}, exc) {'raised' if raised else 'returned ' + repr(got2)} although "
+                        f"{'a common option exists' if got is not None else 'there is no common option'}",
+                        {"kind": "negotiate", "supported": sup, "offered": off},
+                        {"oracle": "negotiate-no-common-not-an-error", "offered_none": off is None})
         ops.append(f"tls.negotiate {csv(sup)} {'none' if off is None else csv(off)}")
         impl.append("ok " + ("none" if got is None else str(got)))
         # independent oracle: first element of supported that is offered
@@ -55,6 +63,8 @@ def negotiation_corr(ctx, r, n):
         for b in vs:
             ops.append(f"tls.compat {a} {b}")
             impl.append("ok " + ("1" if is_version_compatible(a, b) else "0"))
+    if not use_driver:
+        return 0
     out = lean.run_driver(ops)
     bad = [(o, i, m) for o, i, m in zip(ops, impl, out) if i != m]
     for o, i, m in bad[:3]:
@@ -205,6 +215,14 @@ BAD_CERTS = [
 
 def cert_kwargs(Q, D, kind, spec):
     """quicpair.run keyword arguments for a (possibly bad) self-signed server certificate"""
+    if spec.get("pem"):            # recorded leaf / key / chain / trust anchor (chain matrix)
+        from cryptography import x509
+        from cryptography.hazmat.primitives import serialization
+        q = spec["pem"]
+        return {"identity": (x509.load_pem_x509_certificate(q["leaf_pem"].encode()),
+                             [x509.load_pem_x509_certificate(x.encode()) for x in q["chain_pem"]],
+                             serialization.load_pem_private_key(q["leaf_key_pem"].encode(), None)),
+                "trust": q["trusted_ca_pem"].encode()}
     if spec.get("ca_sans"):        # end-entity certificate for these names, signed by a throw-away CA the client trusts
         ca, ca_key = Q.make_ca()
         cert, key = Q.make_leaf(ca, ca_key, spec["ca_sans"])
@@ -230,6 +248,7 @@ def option_lattice(ctx, r, thorough):
     A, B, C = CS.AES_128_GCM_SHA256, CS.AES_256_GCM_SHA384, CS.CHACHA20_POLY1305_SHA256
     default = [B, A, C]
     cipher_lists = [None, [A], [C], [B, C], [C, A, B]]
+    # None = the option is omitted entirely (no ALPN extension / no ALPN requirement)
     alpn_lists = [None, ["h3"], ["hq-interop", "h3"], ["x"]]
     seed = 1000
     # --- exhaustive pairs of cipher lists, then of ALPN lists
@@ -406,6 +425,69 @@ def name_matrix(ctx, thorough):
     ctx.notes["name_matrix"] = n
 
 
+# ---------------------------------------------------------------- who issued the presented chain
+def chain_matrix(ctx, thorough):
+    """certificates the SERVER puts into its Certificate message must never become
+    trust anchors: the client (which trusts one CA only) completes iff the presented
+    leaf chains to THAT CA and is valid for the requested name"""
+    from aioquic import tls
+    from harness import quicpair as Q, tlsdrive as D
+    good_ca = Q.make_ca("aq trusted CA")
+    good_int = Q.make_ca("aq trusted intermediate", issuer=good_ca)
+    rogue_ca = Q.make_ca("aq rogue CA")
+    rogue_int = Q.make_ca("aq rogue intermediate", issuer=rogue_ca)
+    twin_ca = Q.make_ca("aq trusted CA")              # same subject name as the trusted CA, other key
+    trust = D.pem(good_ca[0])
+    L = lambda issuer, name="localhost": Q.make_leaf(issuer[0], issuer[1], [name])
+    cases = [
+        # (description, leaf (cert, key), chain sent, expected to complete)
+        ("leaf of the trusted CA, no chain", L(good_ca), [], True),
+        ("leaf of a trusted intermediate, intermediate in the chain", L(good_int), [good_int[0]], True),
+        ("leaf of a trusted intermediate, intermediate and root in the chain", L(good_int), [good_int[0], good_ca[0]], True),
+        ("leaf of a trusted intermediate, intermediate NOT sent", L(good_int), [], False),
+        ("leaf of an untrusted CA, that CA in the chain", L(rogue_ca), [rogue_ca[0]], False),
+        ("leaf of an untrusted CA, no chain", L(rogue_ca), [], False),
+        ("leaf of an untrusted intermediate, intermediate and its root in the chain", L(rogue_int),
+         [rogue_int[0], rogue_ca[0]], False),
+        ("leaf of an untrusted intermediate, only the intermediate in the chain", L(rogue_int), [rogue_int[0]], False),
+        ("leaf of an untrusted CA that carries the trusted CA's subject name, that CA in the chain", L(twin_ca),
+         [twin_ca[0]], False),
+        ("leaf of an untrusted CA, untrusted CA and the trusted CA in the chain", L(rogue_ca), [rogue_ca[0], good_ca[0]], False),
+        ("leaf of the trusted CA for another name, untrusted CA in the chain", L(good_ca, "evil.example"), [rogue_ca[0]], False),
+        ("leaf of an untrusted CA for another name, that CA in the chain", L(rogue_ca, "evil.example"), [rogue_ca[0]], False),
+    ]
+    n = 0
+    seed = 7500
+    for desc, (leaf, key), chain, want in cases:
+        c = D.client(server_name="localhost", cadata=trust)
+        p = D.Pair(c, D.server(ident=(leaf, list(chain), key)))
+        ce, _ = p.run()
+        done = c.state == tls.State.CLIENT_POST_HANDSHAKE
+        n += 1
+        ctx.count(("chain", desc), want)
+        from cryptography.hazmat.primitives import serialization as _ser
+        rec = {"kind": "chain", "case": desc, "expect_complete": want, "leaf_pem": D.pem(leaf).decode(),
+               "leaf_key_pem": key.private_bytes(_ser.Encoding.PEM, _ser.PrivateFormat.PKCS8, _ser.NoEncryption()).decode(),
+               "chain_pem": [D.pem(x).decode() for x in chain], "trusted_ca_pem": trust.decode(), "server_name": "localhost"}
+        if done and not want:
+            ctx.witness(f"client trusting only its own CA completed the handshake with a server presenting: {desc}", rec,
+                        {"oracle": "completes-without-authentication", "level": "tls", "presented": "untrusted-chain"})
+        if want and not done:
+            ctx.witness(f"client refused a valid chain ({desc}): {ce!r}", rec, {"oracle": "valid-certificate-refused", "chain": desc})
+        if thorough or not want and chain:
+            # the same through real QUIC connections
+            seed += 1
+            res = Q.run(seed, {"server_name": "localhost"}, identity=(leaf, list(chain), key), trust=trust)
+            n += 1
+            rr = {"seed": seed, "client_options": {"server_name": "localhost"}, "server_options": {},
+                  "cert": {"kind": "ec256", "pem": rec}}
+            if want:
+                judge_pair(ctx, res, f"QUIC, {desc}", rerun=rr)
+            else:
+                judge_pair(ctx, res, f"QUIC, {desc}", bad_cert=f"presented as: {desc}", rerun=rr)
+    ctx.notes["chain_matrix"] = n
+
+
 # ---------------------------------------------------------------- byte-flipping man in the middle (message level)
 def exchange(D, tls, c, s, tamper):
     """message-by-message handshake between two real contexts; `tamper(direction,
@@ -537,12 +619,18 @@ def main(tier):
         "client verifies certificates (verify_mode != CERT_NONE) for client_complete_authentic",
         "EnvOK (see C11): attribute-reading tests evaluated on handler-entry values",
     ]
-    # failing-input search used when an obligation / the tie no longer checks: rogue servers that
-    # hold neither a trusted certificate key nor an offered PSK, and the name matrix
+    # failing-input search used when an obligation / the tie no longer checks (e.g. the extractor
+    # refuses a changed negotiate()): every oracle that needs neither the generated machine nor the
+    # driver — negotiate() against its law, the configuration lattice on real connections, the
+    # name and chain matrices, rogue servers
     def search():
         from harness import tlsrogue
-        tlsrogue.run(ctx, full=True, label="rogue-server-search")
+        sr = rng.make("c03-search")
+        negotiation_corr(ctx, sr, 400, use_driver=False)
+        option_lattice(ctx, sr, False)
         name_matrix(ctx, False)
+        chain_matrix(ctx, False)
+        tlsrogue.run(ctx, full=True, label="rogue-server-search")
     ctx.search = search
     if not ok:
         return ctx.finish()
@@ -557,6 +645,7 @@ def main(tier):
     bad += version_lattice(ctx, r, thorough)
     option_lattice(ctx, r, thorough)
     name_matrix(ctx, thorough)
+    chain_matrix(ctx, thorough)
     from harness import tlsrogue
     tlsrogue.run(ctx, full=True)
     byte_flips(ctx, r, thorough)
@@ -601,6 +690,25 @@ def replay(path):
         want = any(same_identity(rep["server_name"], x) for x in rep["certificate_sans"])
         ws = [] if done == want else [{"what": f"server_name={rep['server_name']!r} certificate for {rep['certificate_sans']}: "
                                                f"client completed={done}, expected {want}"}]
+    elif kind == "negotiate":
+        try:
+            got = tls.negotiate(rep["supported"], rep["offered"], tls.AlertHandshakeFailure("x"))
+            ws = [{"what": f"negotiate({rep['supported']}, {rep['offered']}, exc) returned {got!r} instead of raising"}] \
+                if got is None else []
+        except tls.AlertHandshakeFailure:
+            common = rep["offered"] is not None and any(x in rep["offered"] for x in rep["supported"])
+            ws = [{"what": "negotiate raised although a common option exists"}] if common else []
+    elif kind == "chain":
+        from cryptography import x509
+        from cryptography.hazmat.primitives import serialization
+        leaf = x509.load_pem_x509_certificate(rep["leaf_pem"].encode())
+        key = serialization.load_pem_private_key(rep["leaf_key_pem"].encode(), None)
+        chain = [x509.load_pem_x509_certificate(x.encode()) for x in rep["chain_pem"]]
+        c = D.client(server_name=rep["server_name"], cadata=rep["trusted_ca_pem"].encode())
+        D.Pair(c, D.server(ident=(leaf, chain, key))).run()
+        done = c.state == tls.State.CLIENT_POST_HANDSHAKE
+        ws = [] if done == rep["expect_complete"] else [{"what": f"{rep['case']}: client completed={done}, "
+                                                                 f"expected {rep['expect_complete']}"}]
     elif kind == "flip":
         D.tap_extract()
         mk = dict(flip_variants(tls, D, S))[rep["variant"]]
